@@ -142,8 +142,11 @@ class Tr:
                 r = z3.If(r >= x, r, x) if isinstance(e, sympy.Max) else z3.If(r <= x, r, x)
             return r
         if isinstance(e, sympy.core.function.AppliedUndef):
-            # amount functions A_X(t) and the like: opaque real inputs
-            return self.var(str(e))
+            if len(e.args) == 1 and e.args[0].is_Symbol and e.args[0].name == 't':
+                # amount functions A_X(t) and the like: opaque real inputs
+                return self.var(str(e))
+            # any other undefined function (e.g. PHI built by the reference interpreter): uninterpreted application
+            return self.app(type(e).__name__, *[self.tr(a) for a in e.args])
         if isinstance(e, sympy.Derivative):
             return self.var(str(e))
         if isinstance(e, sympy.Function):
